@@ -261,7 +261,7 @@ def cleaning_parallel(ctx):
 
 
 TOK = ["hello", "world", "Привет", "мир", "λόγος", "2024", "3.14", ",", ".", "!", "?", " ", " ", "  ", "\u00a0", "\u3000", "\u0301", "😀", "漢字",
-       "かな", "aaaaa", "aaa", "     ", "!!!!!!", "...", "\t", "\t", "\r", "\x01", "\u0378", "\uffff", "\ue000", "ß", "İ", "-", "—", "«", "x", "ab"]
+       "かな", "aaaaa", "aaa", "     ", "!!!!!!", "...", "\t", "\t", "\r", "\x01", "\x00", "\x00", "\x00\x00", "\x1f", "\x0b", "\x7f", "\u0378", "\uffff", "\ue000", "ß", "İ", "-", "—", "«", "x", "ab"]
 FRACS = {"0": "0/1", "1": "1/1", "0.5": "1/2", "0.25": "1/4", "0.75": "3/4"}
 
 
@@ -275,6 +275,9 @@ def cleaning_model(ctx):
         lines = []
         for _ in range(rng.randrange(1, 9)):
             b = "".join(rng.choice(TOK) for _ in range(rng.randrange(0, 14))).encode("utf-8", "surrogatepass")
+            if rng.random() < 0.15:        # a control character (NUL included) as the very first / very last character of the line or of a field
+                c_ = rng.choice([b"\x00", b"\x00\x00", b"\x01", b"\x1f", b"\x00\x00\x00\x00"])
+                b = rng.choice([c_ + b, b + c_, b.replace(b"\t", b"\t" + c_, 1)])
             if rng.random() < 0.12:
                 b = bytearray(b + b"z")
                 b[rng.randrange(len(b))] = rng.choice([0xFF, 0x80, 0xC3, 0xED])
